@@ -128,74 +128,74 @@ static _Bool w_cmp_signed(const CH *a, unsigned long an, const CH *b, unsigned l
 #define T_FFNO "find_first_not_of: lowest xpos >= pos, xpos < size() with at(xpos) not in the set, else npos"
 #define T_FLNO "find_last_not_of: highest xpos <= pos, xpos < size() with at(xpos) not in the set, else npos"
 
-/*@GROUP name=find props=C08,C02,C05 kind=B unwind=8 bound=haystack<=5(quick)/6(thorough),needle<=3 cost=3@*/
+/*@GROUP name=find props=C08,C02,C05 kind=B solver=kissat unwind=8 bound=haystack<=5(quick)/6(thorough),needle<=3 cost=3@*/
 void h_find(void) { HAYSTACK(HMAX, 0UL); NEEDLE_V(NMAX);
   VF_KNOWN(C08_find_empty_needle, enn == 0 && ep <= hn);
   VF_KNOWN(C08_find_tail_overread, w_find_tail(hay_in, hn, en, enn, ep));
   unsigned long r = CALL_V(find); SEARCH_CHECK(r, r_find, T_FIND); }
 
-/*@GROUP name=find_ptr props=C08,C02,C05 kind=B unwind=8 bound=haystack<=5(quick)/6(thorough),needle<=3 cost=3@*/
+/*@GROUP name=find_ptr props=C08,C02,C05 kind=B solver=kissat unwind=8 bound=haystack<=5(quick)/6(thorough),needle<=3 cost=3@*/
 void h_find_ptr(void) { HAYSTACK(HMAX, 0UL); NEEDLE_P(NMAX);
   VF_KNOWN(C08_find_empty_needle, enn == 0 && ep <= hn);
   VF_KNOWN(C08_find_tail_overread, w_find_tail(hay_in, hn, en, enn, ep));
   unsigned long r = CALL_P(find); SEARCH_CHECK(r, r_find, T_FIND); }
 
-/*@GROUP name=find_ch props=C08,C02,C05 kind=B unwind=8 bound=haystack<=5(quick)/6(thorough)@*/
+/*@GROUP name=find_ch props=C08,C02,C05 kind=B solver=kissat unwind=8 bound=haystack<=5(quick)/6(thorough)@*/
 void h_find_ch(void) { HAYSTACK(HMAX, 0UL); NEEDLE_C(); unsigned long r = CALL_C(find); SEARCH_CHECK(r, r_find, T_FIND); }
 
-/*@GROUP name=rfind props=C08,C02,C05 kind=B unwind=8 bound=haystack<=4(quick)/6(thorough),needle<=2(quick)/3(thorough) cost=3@*/
+/*@GROUP name=rfind props=C08,C02,C05 kind=B solver=kissat unwind=8 bound=haystack<=4(quick)/6(thorough),needle<=2(quick)/3(thorough) cost=3@*/
 void h_rfind(void) { HAYSTACK(HSML, NPOS); NEEDLE_V(NSML); unsigned long r = CALL_V(rfind); SEARCH_CHECK(r, r_rfind, T_RFIND); }
 
-/*@GROUP name=rfind_ptr props=C08,C02,C05 kind=B unwind=8 bound=haystack<=4(quick)/6(thorough),needle<=2(quick)/3(thorough) cost=3@*/
+/*@GROUP name=rfind_ptr props=C08,C02,C05 kind=B solver=kissat unwind=8 bound=haystack<=4(quick)/6(thorough),needle<=2(quick)/3(thorough) cost=3@*/
 void h_rfind_ptr(void) { HAYSTACK(HSML, NPOS); NEEDLE_P(NSML); unsigned long r = CALL_P(rfind); SEARCH_CHECK(r, r_rfind, T_RFIND); }
 
-/*@GROUP name=rfind_ch props=C08,C02,C05 kind=B unwind=8 bound=haystack<=5(quick)/6(thorough)@*/
+/*@GROUP name=rfind_ch props=C08,C02,C05 kind=B solver=kissat unwind=8 bound=haystack<=5(quick)/6(thorough)@*/
 void h_rfind_ch(void) { HAYSTACK(HMAX, NPOS); NEEDLE_C(); unsigned long r = CALL_C(rfind); SEARCH_CHECK(r, r_rfind, T_RFIND); }
 
-/*@GROUP name=first_of props=C08,C02,C05 kind=B unwind=8 bound=haystack<=5(quick)/6(thorough),set<=3 cost=2@*/
+/*@GROUP name=first_of props=C08,C02,C05 kind=B solver=kissat unwind=8 bound=haystack<=5(quick)/6(thorough),set<=3 cost=2@*/
 void h_first_of(void) { HAYSTACK(HMAX, 0UL); NEEDLE_V(NMAX); unsigned long r = CALL_V(find_first_of); SEARCH_CHECK(r, r_ffo, T_FFO); }
 
-/*@GROUP name=first_of_ptr props=C08,C02,C05 kind=B unwind=8 bound=haystack<=5(quick)/6(thorough),set<=3 cost=2@*/
+/*@GROUP name=first_of_ptr props=C08,C02,C05 kind=B solver=kissat unwind=8 bound=haystack<=5(quick)/6(thorough),set<=3 cost=2@*/
 void h_first_of_ptr(void) { HAYSTACK(HMAX, 0UL); NEEDLE_P(NMAX); unsigned long r = CALL_P(find_first_of); SEARCH_CHECK(r, r_ffo, T_FFO); }
 
-/*@GROUP name=first_of_ch props=C08,C02,C05 kind=B unwind=8 bound=haystack<=5(quick)/6(thorough)@*/
+/*@GROUP name=first_of_ch props=C08,C02,C05 kind=B solver=kissat unwind=8 bound=haystack<=5(quick)/6(thorough)@*/
 void h_first_of_ch(void) { HAYSTACK(HMAX, 0UL); NEEDLE_C(); unsigned long r = CALL_C(find_first_of); SEARCH_CHECK(r, r_ffo, T_FFO); }
 
-/*@GROUP name=last_of props=C08,C02,C05 kind=B unwind=8 bound=haystack<=5(quick)/6(thorough),set<=3 cost=2@*/
+/*@GROUP name=last_of props=C08,C02,C05 kind=B solver=kissat unwind=8 bound=haystack<=5(quick)/6(thorough),set<=3 cost=2@*/
 void h_last_of(void) { HAYSTACK(HMAX, NPOS); NEEDLE_V(NMAX);
   VF_KNOWN(C08_find_last_empty_view, hn == 0);
   unsigned long r = CALL_V(find_last_of); SEARCH_CHECK(r, r_flo, T_FLO); }
 
-/*@GROUP name=last_of_ptr props=C08,C02,C05 kind=B unwind=8 bound=haystack<=5(quick)/6(thorough),set<=3 cost=2@*/
+/*@GROUP name=last_of_ptr props=C08,C02,C05 kind=B solver=kissat unwind=8 bound=haystack<=5(quick)/6(thorough),set<=3 cost=2@*/
 void h_last_of_ptr(void) { HAYSTACK(HMAX, NPOS); NEEDLE_P(NMAX);
   VF_KNOWN(C08_find_last_empty_view, hn == 0);
   unsigned long r = CALL_P(find_last_of); SEARCH_CHECK(r, r_flo, T_FLO); }
 
-/*@GROUP name=last_of_ch props=C08,C02,C05 kind=B unwind=8 bound=haystack<=5(quick)/6(thorough)@*/
+/*@GROUP name=last_of_ch props=C08,C02,C05 kind=B solver=kissat unwind=8 bound=haystack<=5(quick)/6(thorough)@*/
 void h_last_of_ch(void) { HAYSTACK(HMAX, NPOS); NEEDLE_C();
   VF_KNOWN(C08_find_last_empty_view, hn == 0);
   unsigned long r = CALL_C(find_last_of); SEARCH_CHECK(r, r_flo, T_FLO); }
 
-/*@GROUP name=first_not_of props=C08,C02,C05 kind=B unwind=8 bound=haystack<=5(quick)/6(thorough),set<=3 cost=2@*/
+/*@GROUP name=first_not_of props=C08,C02,C05 kind=B solver=kissat unwind=8 bound=haystack<=5(quick)/6(thorough),set<=3 cost=2@*/
 void h_first_not_of(void) { HAYSTACK(HMAX, 0UL); NEEDLE_V(NMAX); unsigned long r = CALL_V(find_first_not_of); SEARCH_CHECK(r, r_ffno, T_FFNO); }
 
-/*@GROUP name=first_not_of_ptr props=C08,C02,C05 kind=B unwind=8 bound=haystack<=5(quick)/6(thorough),set<=3 cost=2@*/
+/*@GROUP name=first_not_of_ptr props=C08,C02,C05 kind=B solver=kissat unwind=8 bound=haystack<=5(quick)/6(thorough),set<=3 cost=2@*/
 void h_first_not_of_ptr(void) { HAYSTACK(HMAX, 0UL); NEEDLE_P(NMAX); unsigned long r = CALL_P(find_first_not_of); SEARCH_CHECK(r, r_ffno, T_FFNO); }
 
-/*@GROUP name=first_not_of_ch props=C08,C02,C05 kind=B unwind=8 bound=haystack<=5(quick)/6(thorough)@*/
+/*@GROUP name=first_not_of_ch props=C08,C02,C05 kind=B solver=kissat unwind=8 bound=haystack<=5(quick)/6(thorough)@*/
 void h_first_not_of_ch(void) { HAYSTACK(HMAX, 0UL); NEEDLE_C(); unsigned long r = CALL_C(find_first_not_of); SEARCH_CHECK(r, r_ffno, T_FFNO); }
 
-/*@GROUP name=last_not_of props=C08,C02,C05 kind=B unwind=8 bound=haystack<=5(quick)/6(thorough),set<=3 cost=2@*/
+/*@GROUP name=last_not_of props=C08,C02,C05 kind=B solver=kissat unwind=8 bound=haystack<=5(quick)/6(thorough),set<=3 cost=2@*/
 void h_last_not_of(void) { HAYSTACK(HMAX, NPOS); NEEDLE_V(NMAX);
   VF_KNOWN(C08_find_last_empty_view, hn == 0);
   unsigned long r = CALL_V(find_last_not_of); SEARCH_CHECK(r, r_flno, T_FLNO); }
 
-/*@GROUP name=last_not_of_ptr props=C08,C02,C05 kind=B unwind=8 bound=haystack<=5(quick)/6(thorough),set<=3 cost=2@*/
+/*@GROUP name=last_not_of_ptr props=C08,C02,C05 kind=B solver=kissat unwind=8 bound=haystack<=5(quick)/6(thorough),set<=3 cost=2@*/
 void h_last_not_of_ptr(void) { HAYSTACK(HMAX, NPOS); NEEDLE_P(NMAX);
   VF_KNOWN(C08_find_last_empty_view, hn == 0);
   unsigned long r = CALL_P(find_last_not_of); SEARCH_CHECK(r, r_flno, T_FLNO); }
 
-/*@GROUP name=last_not_of_ch props=C08,C02,C05 kind=B unwind=8 bound=haystack<=5(quick)/6(thorough)@*/
+/*@GROUP name=last_not_of_ch props=C08,C02,C05 kind=B solver=kissat unwind=8 bound=haystack<=5(quick)/6(thorough)@*/
 void h_last_not_of_ch(void) { HAYSTACK(HMAX, NPOS); NEEDLE_C();
   VF_KNOWN(C08_find_last_empty_view, hn == 0);
   unsigned long r = CALL_C(find_last_not_of); SEARCH_CHECK(r, r_flno, T_FLNO); }
